@@ -5,6 +5,7 @@ import (
 	"net/http"
 	"sort"
 	"strings"
+	"sync/atomic"
 	"time"
 
 	"github.com/jub0bs/cors"
@@ -245,6 +246,9 @@ var routeOther = CfgLit{Origins: []string{"https://*.example:*", "http://*.examp
 
 var routeInvalid = CfgLit{Origins: []string{"https://c.example", "https://c.example/path"}, Methods: []string{"QUERY"}, MaxAge: -2}
 
+// reentrantDeadlock is set once a re-entrant control call has failed to return.
+var reentrantDeadlock atomic.Bool
+
 // reentrantRW performs a call on the middleware from inside Header() (once).
 type reentrantRW struct {
 	vlib.Rec
@@ -309,12 +313,18 @@ func buildVia0(route int, lit CfgLit, debug bool, early **earlyWrap, extra ...vl
 					w.do = func() {
 						// with a watchdog: a middleware that held its lock across calls into the ResponseWriter
 						// would block here forever
+						if reentrantDeadlock.Load() {
+							// already established in this process: do not wait again (every waiter leaks a goroutine)
+							err = fmt.Errorf("Reconfigure called from inside ResponseWriter.Header() does not return (deadlock established earlier in this run)")
+							return
+						}
 						done := make(chan error, 1)
 						go func() { done <- m.Reconfigure(&cfg) }()
 						select {
 						case err = <-done:
-						case <-time.After(120 * time.Second):
-							err = fmt.Errorf("Reconfigure called from inside ResponseWriter.Header() did not return within 120 s (deadlock)")
+						case <-time.After(20 * time.Second):
+							reentrantDeadlock.Store(true)
+							err = fmt.Errorf("Reconfigure called from inside ResponseWriter.Header() did not return within 20 s (deadlock)")
 						}
 					}
 				}
